@@ -25,6 +25,8 @@ def configs(ctx):
         items.append((b, q, 12, 16, 3, ffwd, finv))
         if not ctx.quick:
             items.append(('near_sym_b', 'qshift_c', 10, 12, 2, ffwd, finv))
+    items.append(('default', 'default', 16, 24, 3))
+    items.append(('default', 'default', 10, 13, 3))
     return items
 
 
